@@ -453,6 +453,11 @@ fn save_witnesses() -> Vec<(&'static str, Val)> {
 
 /// one save of `vals`; every value read back must equal the one written
 fn save_case(or: &mut Oracle, vals: &[Val], use_update: bool, replay: Value) {
+    // An object whose *value* is a reference is followed by `resolve` (repair of D32), so it cannot be read
+    // back verbatim through the document; such a value is saved inside an array instead. The placement
+    // "reference as indirect-object body" stays covered by the byte-level streams, which parse the body directly.
+    let wrapped: Vec<Val> = vals.iter().map(|v| match v { Val::Ref(..) => Val::Arr(vec![v.clone()]), v => v.clone() }).collect();
+    let vals: &[Val] = &wrapped;
     let prims: Vec<Primitive> = match vals.iter().map(val_to_prim).collect::<Option<Vec<_>>>() { Some(p) => p, None => return };
     or.count(&format!("objects={}", vals.len()));
     if use_update { or.count("with-update-of-existing-object"); }
